@@ -21,7 +21,20 @@ LEVEL = 'exploration'
 
 REF_FLAGS = ['-std=gnu11', '-O0', '-w', '-fno-builtin', '-fsanitize=undefined,float-cast-overflow,address', '-fno-sanitize-recover=all']
 CORPUS = os.path.join(build.VERIF, 'corpus', 'c01')
-RUN_TIMEOUT = 60
+RUN_TIMEOUT = 30
+
+
+def run_exe(exe, timeout=RUN_TIMEOUT):
+    """(status, stdout, stderr) like ilexec.run, but keeps the output printed before a timeout"""
+    env = dict(os.environ, ASAN_OPTIONS='detect_leaks=0:exitcode=99', UBSAN_OPTIONS='halt_on_error=1:exitcode=98')
+    p = subprocess.Popen([exe], stdin=subprocess.DEVNULL, stdout=subprocess.PIPE, stderr=subprocess.PIPE, env=env)
+    try:
+        out, err = p.communicate(timeout=timeout)
+        return p.returncode, out, err
+    except subprocess.TimeoutExpired:
+        p.kill()
+        out, err = p.communicate()
+        return 'timeout', out, b'(killed after %d s) ' % timeout + err
 
 
 # ---------------------------------------------------------------------------
@@ -70,7 +83,7 @@ def run_cproc(src, d, target, name='u'):
     ok, diag = ilexec.cc([cf], exe)
     if not ok:
         return Stream('il2c-output-rejected', diag=diag[-600:])
-    st, out, err = ilexec.run(exe, timeout=RUN_TIMEOUT)
+    st, out, err = run_exe(exe)
     return Stream('ok' if st not in ('timeout',) and isinstance(st, int) and 0 <= st < 64 else 'abnormal', st, out,
                   err.decode(errors='replace')[:600])
 
@@ -83,7 +96,7 @@ def run_ref(src, d, compiler, cs, name='u'):
     p = subprocess.run(cmd, stdout=subprocess.PIPE, stderr=subprocess.STDOUT, timeout=900)
     if p.returncode != 0:
         return Stream('compile-fail', diag=p.stdout.decode(errors='replace')[-600:])
-    st, out, err = ilexec.run(exe, timeout=RUN_TIMEOUT)
+    st, out, err = run_exe(exe)
     return Stream('ok' if isinstance(st, int) and 0 <= st < 64 else 'abnormal', st, out, err.decode(errors='replace')[:600])
 
 
@@ -304,10 +317,11 @@ def _job(arg):
     return res
 
 
-def _corpus_job(path):
-    """one hand-written program, three ways"""
+def _corpus_job(path, repotest=False):
+    """one hand-written program, three ways (repotest: a file of /repo/test that happens to be a runnable program;
+    it is used only when both references build and run it cleanly and agree)"""
     src = open(path, 'rb').read()
-    name = os.path.basename(path)
+    name = ('repo-test/' if repotest else '') + os.path.basename(path)
     res = {'stratum': 'S6', 'target': 'x86_64-sysv', 'functions': 1, 'invalid': 0, 'filtered': 0, 'evals': 0, 'distinct': set(),
            'ambiguous': [], 'viol': [], 'samples': [], 'nonok': 0}
     d = ilexec.workdir('c01.')
@@ -317,6 +331,10 @@ def _corpus_job(path):
             outs[comp] = ilexec.exec_reference(src, d, name='p', compiler=comp)
         g, c = outs['gcc'], outs['clang']
         if g[0] != c[0] or g[1] != c[1] or not isinstance(g[0], int) or not 0 <= g[0] < 64:
+            if repotest:
+                res['functions'] = 0
+                res['skipped'] = 1
+                return res
             res['nonok'] = 1
             res['ambiguous'].append({'case': 'S6/' + name, 'function': name, 'tuples': 1,
                                      'why': 'references disagree or are not clean: gcc status %s, clang status %s: %s' % (
@@ -333,7 +351,7 @@ def _corpus_job(path):
             what = '%s: %s' % (name, sc.diag)
         else:
             exe = os.path.join(d, 'p.cproc.exe')
-            st, out, err = ilexec.run(exe, timeout=RUN_TIMEOUT)
+            st, out, err = run_exe(exe)
             got = out.split(b'\n')
             if out != g[1] or st != g[0]:
                 i = first_diff(got, want)
@@ -346,7 +364,7 @@ def _corpus_job(path):
             res['nonok'] = 1
             res['viol'].append({'key': key, 'what': what[:1500], 'files': {'input.c': src}, 'cmd': replay_cmd('x86_64-sysv', True), 'tuples': 1})
         else:
-            lines = [ln for ln in want if ln]
+            lines = [ln for ln in want if ln] + [b'exit status %d' % g[0]]
             res['evals'] = len(lines)
             res['distinct'].update(lines)
             res['samples'].append({'program': name, 'output lines compared': len(lines), 'exit status': g[0], 'last line': lines[-1].decode(errors='replace') if lines else ''})
@@ -357,7 +375,7 @@ def _corpus_job(path):
 
 def _dispatch(arg):
     if arg[0] == 'S6':
-        return _corpus_job(arg[1])
+        return _corpus_job(arg[1], arg[2])
     return _job(arg)
 
 
@@ -408,7 +426,10 @@ def main(chk):
     corpus = sorted(glob.glob(os.path.join(CORPUS, '*.c')))
     if chk.want('S6'):
         for p in corpus:
-            jobs.append(('S6', p))
+            jobs.append(('S6', p, False))
+        for p in sorted(glob.glob(os.path.join(build.repo(), 'test', '*.c'))):
+            if '+' not in os.path.basename(p) and re.search(rb'\bmain\s*\(', open(p, 'rb').read()):
+                jobs.append(('S6', p, True))
     # big first; VERIF_SEED only rotates the order
     jobs.sort(key=lambda j: -(len(j[1]) if j[0] != 'S6' else 1000))
     if chk.seed and jobs:
@@ -429,6 +450,8 @@ def main(chk):
         t['evaluations'] += r['evals']
         t['filtered_undefined'] += r['filtered']
         t['constraint_violations_not_generated'] += r['invalid']
+        if r.get('skipped'):
+            t['repo_tests_not_usable_as_programs'] = t.get('repo_tests_not_usable_as_programs', 0) + r['skipped']
         t['ambiguous'] += sum(a['tuples'] for a in r['ambiguous'])
         t['violating_functions'] += len(r['viol'])
         distinct |= r['distinct']
